@@ -91,6 +91,24 @@ def acceptor(hist, io):
                             if b is not None and b[keyf] == s[keyf] and s[keyf] < v[keyf]:
                                 return 'policy %s evicted rowid %d (%s=%d) while rowid %d (%s=%d) survived' % (
                                     pol, v['rowid'], keyf, v[keyf], s['rowid'], keyf, s[keyf])
+            # a read that finds the item refreshes what the policy orders by (independently of the
+            # table's own bookkeeping being used above): access time for LRU, access count for LFU
+            if j + 1 < len(lines) and lines[j + 1][0] == 'state' and prev is not None and m in ('get', 'getitem') \
+                    and pol in ('lru', 'lfu'):
+                res = ans.split(' | ')[0][4:]
+                hit = not (res == 'D' or res.startswith('(D') or res.startswith('!'))
+                wk = f.get('k', '')
+                dbk = 'y' + wk[1:] if wk[:1] == 'o' else wk
+                b = [r for r in prev if r['key'] == dbk]
+                a = [r for r in parse_rows(lines[j + 1][1]) if r['key'] == dbk]
+                now = int(f.get('now', 0))
+                if hit and len(a) == 1 and len(b) == 1 and a[0]['rowid'] == b[0]['rowid']:
+                    if pol == 'lru' and a[0]['acc'] != now:
+                        return 'a read at time %d did not refresh the item for the least-recently-used order (access time stays %d): %s' % (
+                            now, a[0]['acc'], line[:100])
+                    if pol == 'lfu' and a[0]['accn'] != b[0]['accn'] + 1:
+                        return 'a read was not counted for the least-frequently-used order (access count %d -> %d): %s' % (
+                            b[0]['accn'], a[0]['accn'], line[:100])
         if line == 'state':
             prev = parse_rows(ans)
     return refdict.accept(hist, io, scope=SCOPE)
